@@ -212,7 +212,8 @@ func TestC29(t *testing.T) {
 	r := ev.New("C29", "exploration",
 		"queries over finite generated JSON inputs that exercise every concurrent part - the JSON parser worker pool (files of up to 9000 lines = many 64-line batches, more batches than channel tokens), stream / outer / lookup joins and a group-by above a join (two input goroutines), LIKE and regexp predicates evaluated from both join branches (shared pattern caches), subquery expressions, the stdin reader - ending normally, early because of LIMIT, or in an error (malformed row, failing expression, error on one join side), in all output modes, "+
 			"run with the race-detector build of the real binary under GOMAXPROCS in {1,2,4,16} and with seeded pseudo-random delays in the JSON workers (hook VERIF_JSON_DELAY_SEED) so parse batches complete out of order; oracle: no 'WARNING: DATA RACE' report and the process ends within the cap; on a timeout a SIGQUIT dump decides: every goroutine parked = deadlock violation, otherwise inconclusive. "+
-			"non-trivial: more than one goroutine worked (more than one JSON batch, or a join) and the query ended early or in error. distinct = case",
+			"join_stops_while_other_input_is_parked (in-process, the real join nodes over harness-owned inputs and consumer): one input of 100..25000 records of one key (the join's input queues hold 10000 messages), the other of 0-3 records; the join is stopped by a failing consumer (how LIMIT and downstream errors arrive), by a failing input, or not at all, and the failure is injected only once the big input stands still (ended, or parked on the full queue); oracle: Run returns (with an error when something failed); it is called stuck only when it has not returned and neither input has moved for 15 s. "+
+			"non-trivial: more than one goroutine worked (more than one JSON batch, or a join) and the query ended early or in error (in-process: the other input was parked on the full queue when the join was stopped). distinct = case",
 		"schedule sampling only: absence of races is not shown; the in-process join schedule enumeration of C19 runs without the race detector")
 	ev.Check(t, r, "race_build_cli", ev.N(300, 10000), func(t *rapid.T) c29Case {
 		c := c29Case{Shape: rapid.SampledFrom([]string{"scan", "bad_row", "failing_expr", "like_regex", "join", "join_error_side", "join_like_both", "outer_join", "group_join", "lookup_join", "subquery_expr"}).Draw(t, "shape")}
@@ -243,4 +244,21 @@ func TestC29(t *testing.T) {
 		c.StdinInput = rapid.IntRange(0, 5).Draw(t, "stdin") == 0 && c.Rows <= 1000
 		return c
 	}, c29Prop)
+	ev.Check(t, r, "join_stops_while_other_input_is_parked", ev.N(160, 3200), func(t *rapid.T) c29JoinCase {
+		c := c29JoinCase{Kind: rapid.SampledFrom([]string{"inner", "left", "right", "outer"}).Draw(t, "kind"),
+			BigSide: rapid.SampledFrom([]string{"left", "right"}).Draw(t, "big_side"),
+			N:       rapid.SampledFrom([]int{100, 9000, 10001, 10500, 12000, 12000, 25000, 25000}).Draw(t, "n"),
+			Small:   rapid.IntRange(1, 3).Draw(t, "small"),
+			Stop:    rapid.SampledFrom([]string{"consumer_error", "consumer_error", "small_input_error", "big_input_error", "none"}).Draw(t, "stop"),
+			Procs:   rapid.SampledFrom([]int{1, 2, 4, 16}).Draw(t, "procs")}
+		switch c.Stop {
+		case "consumer_error":
+			c.StopAfter = rapid.IntRange(1, 3).Draw(t, "stop_after")
+		case "big_input_error":
+			c.StopAfter = rapid.IntRange(1, c.N-1).Draw(t, "stop_after")
+		case "small_input_error":
+			c.Small = rapid.IntRange(0, 3).Draw(t, "small0")
+		}
+		return c
+	}, c29JoinProp)
 }
